@@ -58,7 +58,7 @@ CRYPTO_MODELS = COMMON_MODELS + [
 PROPS["C13"] = {
     "functions": ["MsgSigner::from_seed", "MsgSigner::update", "MsgSigner::sign", "MsgSigner::public_key_bytes",
                   "MsgVerifier::new", "MsgVerifier::update", "MsgVerifier::verify"],
-    "bounds": "signer: sequences of 1..3 messages, each in 1..3 chunks of lengths from {0,1,4} (thorough: 36+72 and 32+100), all seed and "
+    "bounds": "signer: sequences of 1..3 messages, each in 1..3 chunks of lengths from {0,1,4}, incl. empty messages signed with no update() call at all (thorough: 36+72 and 32+100), all seed and "
               "message bytes symbolic; verifier: messages of 0, 5 and 132 bytes, key, message and signature bytes symbolic",
     "outside": "messages longer than 160 bytes, more than 3 messages per signer; that ed25519-dalek implements RFC 8032 (trusted)",
     "models": CRYPTO_MODELS,
@@ -100,7 +100,7 @@ PROPS["C04"] = {
 PROPS["C14"] = {
     "functions": ["EnvelopeEncryption::encrypt_seed", "EnvelopeEncryption::decrypt_seed", "vec_zero_filled"],
     "bounds": "seed 32 and 64 bytes, wrapped key 32 and 48 bytes (all bytes symbolic); any single byte at any position >= 4 xor any "
-              "nonzero value; length-field bytes individually; truncation to 0, 95, 96, 127 bytes; extension by 1 and 4 bytes; provider "
+              "nonzero value; length-field bytes individually and the wrapped-length field at the boundary values len, len-1, len-3, len-4; truncation to 0, 95, 96, 127 bytes; extension by 1 and 4 bytes; provider "
               "faults: error on wrap, error on unwrap, 31- and 33-byte key, any different 32-byte key",
     "outside": "confidentiality ('blob contains neither seed nor key') is a secrecy property of AES-GCM which the ideal AEAD model "
                "assumes rather than proves -- not claimed; wrapped-key lengths other than 32/48; two simultaneous modifications",
